@@ -97,6 +97,7 @@ def _is_generator(node):
 def _walk_own(fn):
     """Walk a function body without descending into nested defs/lambdas/classes."""
     stack = list(fn.body) if not isinstance(fn, ast.Lambda) else [fn.body]
+    stack = [n for n in stack if not isinstance(n, (ast.FunctionDef, ast.AsyncFunctionDef, ast.ClassDef))]
     while stack:
         n = stack.pop()
         yield n
